@@ -49,11 +49,13 @@ class Info(object):
         for c in spec.get("components", []):
             cid = c.get("id") or c["name"]
             self.comps[cid] = c
-            self.comp_tasks[cid] = [self.tnames[i] for i in c.get("tasks", [])]
+            # the tasks a component LISTS decide its state ("also_lists": listed here although the task's own link points elsewhere)
+            self.comp_tasks[cid] = [self.tnames[i] for i in list(c.get("tasks", [])) + list(c.get("also_lists", []))]
             self.comp_children[cid] = [cn[i] for i in c.get("children", [])]
             self.comp_parents.setdefault(cid, [])
             for i in c.get("tasks", []):
-                self.task_comp[self.tnames[i]] = cid
+                if c.get("wire") != "ctor":  # wired through the constructor keyword the task does not point back: it has no component of its own
+                    self.task_comp[self.tnames[i]] = cid
         for c in spec.get("components", []):
             for i in c.get("children", []):
                 self.comp_parents.setdefault(cn[i], []).append(c.get("id") or c["name"])
